@@ -51,6 +51,27 @@ pub fn programs16() -> Vec<Prog> {
     k.ast.items.insert(0, Item::LBreak("first".into()));
     v.push(Prog::new("every-instruction-kind", k.ast, true));
     v.push(writes_halt_ahead());
+    // words the debugger treats specially (returns, calls, HALT) lying at the out-of-bounds
+    // address the program runs or jumps into
+    for (name, words) in [("runs-into-RET-at-xFE00", [0xC1C0u16, 0x4800]), ("runs-into-JSR-at-xFE00", [0x4801, 0xC1C0]), ("runs-into-HALT-at-xFE00", [0xF025, 0xD800])] {
+        let mut p = Program::default();
+        p.items.push(Item::Orig(Lit::hex(0xFDFE)));
+        p.push(Some("first"), Stmt::Add(1, 1, Src2::Imm(Lit::dec(2))));
+        p.push(Some("end"), Stmt::Add(1, 1, Src2::Imm(Lit::dec(1))));
+        p.push(None, Stmt::Fill(Lit::hex(words[0])));
+        p.push(None, Stmt::Fill(Lit::hex(words[1])));
+        v.push(Prog::new(name, p, true));
+    }
+    // ... and stored there by the program before it jumps (xFFFF: a JSRR word)
+    let mut p = Program::default();
+    p.push(Some("first"), Stmt::Mem(PcRel::Ld, 0, lbl("word")));
+    p.push(None, Stmt::Mem(PcRel::Ld, 1, lbl("target")));
+    p.push(None, Stmt::Str(0, 1, Lit::dec(0)));
+    p.push(None, Stmt::Jmp(1));
+    p.push(Some("end"), Stmt::Named(0x25, "halt"));
+    p.push(Some("word"), Stmt::Fill(Lit::hex(0x4080)));
+    p.push(Some("target"), Stmt::Fill(Lit::hex(0xFFFF)));
+    v.push(Prog::new("stores-JSRR-at-xFFFF-and-jumps", p, true));
     v
 }
 
